@@ -379,7 +379,7 @@ Proof.
       rewrite EZ'. unfold take_chk.
       match goal with |- context [forallb ?p ?l] => assert (Hchk : forallb p l = true) end.
       { apply forallb_forall. intros k Hk. apply in_map_iff in Hk as (i & <- & Hi). destruct (pos_spec i Zs Hi) as [Hp _].
-        unfold zlen. apply andb_true_iff. split; [apply Z.leb_le|apply Z.ltb_lt]; lia. }
+        unfold zlen. unfold idx in *. apply andb_true_iff. split; [apply Z.leb_le|apply Z.ltb_lt]; lia. }
       rewrite Hchk. cbn [bind fst snd]. rewrite take_pos, map_map. f_equal. f_equal. f_equal.
       transitivity (map (fun i : idx => i) Zs); [|apply map_id]. apply map_ext_in. intros i Hi. now apply pos_spec. }
   rewrite E3. cbn [bind fst snd]. eexists. split; [reflexivity|]. split; [|split; [reflexivity|]].
